@@ -22,7 +22,7 @@ func init() {
 				"Not decided: fmt's and strings.Builder's own behaviour (trusted).",
 			Rule:        "one obligation per accepted-form fact; the token table has one row per defined Op constant",
 			Assumptions: []string{"go/types + go/ssa", "fmt.Sprintf and strings.Builder behave as documented"},
-			MinObl:      7,
+			MinObl:      6,
 		},
 		Configs: tiered(linuxQuick, allBackendsQ),
 		Run:     runC16,
